@@ -26,7 +26,7 @@ macro_rules! variant {
             let _ = ledger_take_errors();
             let max = match rng.below(5) { 0 => usize::MAX, 1 => e0 * 2, _ => e0 * rng.range(2, 10) + rng.usize_below(e0) };
             let hk = TH_KINDS[rng.usize_below(TH_KINDS.len())];
-            let mut caches: Vec<LruCache<$K, $V, TH>> = vec![if rng.chance(1, 2) { LruCache::with_hasher(max, TH(hk)) } else { LruCache::with_capacity_and_hasher(max, rng.usize_below(20), TH(hk)) }];
+            let mut caches: Vec<LruCache<$K, $V, TH>> = vec![if rng.chance(1, 2) { LruCache::with_hasher(max, TH(hk, next_hasher_seed())) } else { LruCache::with_capacity_and_hasher(max, rng.usize_below(20), TH(hk, next_hasher_seed())) }];
             let mut log: Vec<String> = vec![format!("{} max={} hk={}", $label, max, hk)];
             let n = rng.range(0, 60);
             let mut stamp = 1u64;
@@ -44,7 +44,9 @@ macro_rules! variant {
                     9 => { let probe = mk_k(id); let _ = c.get(&probe); let _ = c.mutate(&probe, |_v| ()); format!("#{} get/mutate {}", ci, id) }
                     10 => { let m = rng.next(); c.retain(|k, _| (m >> (kid(k) % 64)) & 1 == 1); format!("#{} retain", ci) }
                     11 => { match rng.below(4) { 0 => c.reserve(rng.usize_below(30)), 1 => c.shrink_to_fit(), 2 => c.set_max_size(c.current_size() / 2), _ => c.set_max_size(max) } format!("#{} capacity/limit", ci) }
-                    12 => { if caches.len() < 3 { let d = caches[ci].clone(); caches.push(d); } format!("#{} clone", ci) }
+                    12 => { if caches.len() < 3 { if rng.chance(1, 2) { let d = caches[ci].clone(); caches.push(d); } else { let m2 = if rng.chance(1, 2) { max } else { e0 * rng.range(1, 6) }; caches.push(LruCache::with_capacity_and_hasher(m2, rng.usize_below(40), TH(hk, next_hasher_seed()))); } }
+                        else { let src = (ci + 1) % caches.len(); if ci < src { let (l, r) = caches.split_at_mut(src); l[ci].clone_from(&r[0]); } else { let (l, r) = caches.split_at_mut(ci); r[0].clone_from(&l[src]); } }
+                        format!("#{} clone / new cache / clone_from", ci) }
                     _ => { if rng.chance(1, 3) { c.clear(); } format!("#{} clear?", ci) }
                 };
                 log.push(what);
